@@ -266,7 +266,7 @@ def run_case(desc):
             okseq = False
         if not okseq:
             v.count("skipped_sequential_baseline_refused")
-            return v.result()
+            return v.result(evaluations=v.counters.get("runs", 0), )
         v.count("cases")
         if desc["kind"] == "pools":
             orders = set()
@@ -293,7 +293,7 @@ def run_case(desc):
             v.count("distinct_permuted_schedules", len(seen))
             if gens >= 2:
                 keys = [mapgen.signature(case) + f"|{s}" for s in seen]
-    return v.result(keys=keys, sample={"case": mapgen.describe(case), "kind": desc["kind"],
+    return v.result(evaluations=v.counters.get("runs", 0), keys=keys, sample={"case": mapgen.describe(case), "kind": desc["kind"],
                                        "schedules_seen": len(keys)} if desc["i"] % 25 == 0 else None)
 
 
